@@ -208,6 +208,9 @@ def par_compare(ck, hcmd, dcmd, cases, label, chunk=24, workers=None):
             ck.cov["op_lines"] = ck.cov.get("op_lines", 0) + nlines
             ck.cov["cases"] = ck.cov.get("cases", 0) + len(ch)
             for c in ch:
+                if not c[0].startswith("data "):        # the malformed-protocol corpus case
+                    ck.cov["protocol_robustness_lines"] = ck.cov.get("protocol_robustness_lines", 0) + len(c)
+                    continue
                 dkey = hashlib.blake2b(c[0].encode(), digest_size=12).hexdigest()
                 for op in c[1:]:
                     ck.count(1)
